@@ -483,7 +483,7 @@ class C13(Property):
         'normBool_accepted', 'normBool_idempotent', 'normBool_str_rejects', 'normDecimal_accepted_iff', 'normDecimal_value',
         'normDecimal_idempotent', 'normDecimal_zero_unsigned', 'normBase64_length', 'asciiLower_idempotent',
         'asciiUpper_idempotent', 'normHex_idempotent', 'normDatetime_preserves_instant', 'normDatetime_utc_fixed',
-        'normDatetime_aware_sound', 'formatUtc_accepted',
+        'normDatetime_aware_sound', 'formatUtc_accepted', 'accepts_datetime_iff',
     )
     level_text = ('Lean 4 theorems over the model of DataType.normalize_objects composed with the C03 gate model: for the '
                   'integer, decimal/currency and boolean families the normal form of every in-domain input denotes the same '
